@@ -472,7 +472,7 @@ def check_fragment(rep, prog):
     t = ast.unparse(fn)
     # parser
     okp = has(t, "chrname, position = ('_'.join(k.split('_')[:-1]), k.split('_')[-1])") and has(t, "position, add_info = position.split('.', 1)") and \
-        has(t, "ndd[chrname].append((int(position), add_info))") and has(t, "if not '.' in position:\n    add_info = None")
+        has(t, "ndd[chrname].append((int(position), add_info))") and (has(t, "if not '.' in position:\n    add_info = None") or has(t, "if '.' not in position:\n    add_info = None"))
     rep.ob('R-TPL', 'fragment_data_dict key parser', okp, "chromosome = everything before the last '_'; position[.info] after it, info split at the first '.'", m.rel, fn.lineno,
            what="keys are parsed as chromosome_position[.info] with '_' and '.' allowed in the chromosome name")
     # printer (inverse)
@@ -558,7 +558,7 @@ def check_parsers(rep, prog):
         arm_stores = [s for s in stores_all if arm is not None and isinstance(arm, ast.If) and any(s is y for x in arm.body for y in ast.walk(x))]
         oks = len(brk) == 1 and ast.unparse(brk[0].test) == 'len(genotypes) < subsample[pop]' and len(ch) == 1 and \
             ast.unparse(ch[0].args[1]) == 'subsample[pop]' and any(k.arg == 'replace' and ast.unparse(k.value) == 'False' for k in ch[0].keywords) and \
-            ast.unparse(ch[0].args[0]) in ('[i for i in range(0, len(genotypes))]', 'range(len(genotypes))', 'len(genotypes)') and \
+            ast.unparse(ch[0].args[0]) in ('[i for i in range(0, len(genotypes))]', '[i for i in range(len(genotypes))]', 'range(len(genotypes))', 'len(genotypes)') and \
             len(in_else) == 1 and arm_stores == in_else and "snp_dict['calls'] = calls_dict" in stores_else and \
             lp.body.index(brk[0]) < [i for i, s in enumerate(lp.body) if any(c is ch[0] for c in ast.walk(s))][0]
         det = 'choice(range(len(genotypes)), subsample[pop], replace=False) after `if len(genotypes) < subsample[pop]: break`; SNP stored in the for/else only'
